@@ -1,6 +1,8 @@
 /-
   C16 — scrypt (scrypt/scrypt.go, pbkdf2/pbkdf2.go), model of the code as it is after
-  commit 2ba38e6 ("return an error for keyLen <= 0").
+  commit 2ba38e6 ("return an error for keyLen <= 0") and the follow-up that also rejects
+  keyLen > (2^32−1)·32 (the RFC 7914 dkLen bound; crypto/pbkdf2 refuses longer keys and the
+  x/crypto/pbkdf2 wrapper turns that refusal into a panic).
 
   Three layers:
    L1  `…Go`    flat-memory model of the Go code: []uint32 backing arrays, slice views (off,len),
@@ -310,23 +312,28 @@ def loop1 {σ : Type} (n : Nat) (body : Nat → σ → Option σ) : Nat → Nat 
   | 0, _, s => some s
   | f+1, i, s => if i < n then (body i s).bind (loop1 n body f (i + 1)) else some s
 
+/-- body of `for i := 0; i < 2*r; i += 2` in blockMix:
+    salsaXOR(tmp, in[i*16:], out[i*8:]); salsaXOR(tmp, in[i*16+16:], out[i*8+r*16:]) -/
+def bmStep (inp out : View) (r : Nat) (i : Nat) (st : Blk × Words) : Option (Blk × Words) := do
+  let in1 ← inp.sliceFrom (i * 16)
+  let o1 ← out.sliceFrom (i * 8)
+  let b1 ← rd16 st.2 in1
+  let t1 := salsaXOR st.1 b1
+  let xy ← wr16 st.2 o1 t1
+  let in2 ← inp.sliceFrom (i * 16 + 16)
+  let o2 ← out.sliceFrom (i * 8 + r * 16)
+  let b2 ← rd16 xy in2
+  let t2 := salsaXOR t1 b2
+  let xy ← wr16 xy o2 t2
+  pure (t2, xy)
+
 /-- blockMix(&tmp, in, out, r) with `in`, `out` views of the same backing array `xy`.
     `tmp` is completely overwritten by the first blockCopy, so it is a local here. -/
 def blockMixGo (xy : Words) (inp out : View) (r : Nat) : Option Words := do
   -- blockCopy(tmp[:], in[(2*r-1)*16:], 16):  copy(tmp[:], src[:16])
   let src ← inp.sliceFrom ((2 * r - 1) * 16)
   let tmp ← rd16 xy src            -- src[:16] needs 16 ≤ len(src); all 16 words are copied
-  let st ← loop2 (2 * r) (fun i (st : Blk × Words) => do
-      let (tmp, xy) := st
-      let in1 ← inp.sliceFrom (i * 16)
-      let o1 ← out.sliceFrom (i * 8)
-      let t1 := salsaXOR tmp (← rd16 xy in1)
-      let xy ← wr16 xy o1 t1
-      let in2 ← inp.sliceFrom (i * 16 + 16)
-      let o2 ← out.sliceFrom (i * 8 + r * 16)
-      let t2 := salsaXOR t1 (← rd16 xy in2)
-      let xy ← wr16 xy o2 t2
-      pure (t2, xy)) (2 * r) 0 (tmp, xy)
+  let st ← loop2 (2 * r) (bmStep inp out r) (2 * r) 0 (tmp, xy)
   pure st.2
 
 /-- integer(b, r): b[j] | b[j+1]<<32 with j = (2r−1)·16 -/
@@ -374,39 +381,52 @@ structure Mem where
   v : Words
   xy : Words
 
+/-- x[i] = LittleEndian.Uint32(b[j:]) with j = 4i (b = the caller's b[boff:]) -/
+def loadStep (b : Array UInt8) (boff : Nat) (x : View) (i : Nat) (xy : Words) : Option Words :=
+  if i < x.len then do let w ← le32At b (boff + 4 * i); pure (xy.setIfInBounds (x.off + i) w) else none
+
+/-- first loop body: blockCopy(v[i*R:], x, R); blockMix(x→y); blockCopy(v[(i+1)*R:], y, R); blockMix(y→x) -/
+def fillStep (x y vv : View) (r : Nat) (i : Nat) (st : Words × Words) : Option (Words × Words) := do
+  let d1 ← vv.sliceFrom (i * (32 * r))
+  let v ← blockCopyGo st.1 d1 st.2 x (32 * r)
+  let xy ← blockMixGo st.2 x y r
+  let d2 ← vv.sliceFrom ((i + 1) * (32 * r))
+  let v ← blockCopyGo v d2 xy y (32 * r)
+  let xy ← blockMixGo xy y x r
+  pure (v, xy)
+
+/-- second loop body: j = int(integer(x) & uint64(N−1)); blockXOR(x, v[j*R:], R); blockMix(x→y); same from y -/
+def mixStep (x y vv : View) (r n : Nat) (_i : Nat) (st : Words × Words) : Option (Words × Words) := do
+  let g ← integerGo st.2 x r
+  let j := (g &&& UInt64.ofNat (n - 1)).toNat
+  let s1 ← vv.sliceFrom (j * (32 * r))
+  let xy ← blockXORGo st.2 x st.1 s1 (32 * r)
+  let xy ← blockMixGo xy x y r
+  let g ← integerGo xy y r
+  let j := (g &&& UInt64.ofNat (n - 1)).toNat
+  let s2 ← vv.sliceFrom (j * (32 * r))
+  let xy ← blockXORGo xy y st.1 s2 (32 * r)
+  let xy ← blockMixGo xy y x r
+  pure (st.1, xy)
+
+/-- PutUint32(b[j:], x[i]) with j = 4i -/
+def storeStep (xy : Words) (boff : Nat) (i : Nat) (b : Array UInt8) : Option (Array UInt8) := do
+  let w ← xy[i]?
+  putLe32At b (boff + 4 * i) w
+
 /-- smix(b[boff:], r, N, v, xy) -/
-def smixGo (m : Mem) (boff r n : Nat) : Option Mem := do
-  let ⟨b, v, xy⟩ := m
-  if boff > b.size then none     -- the slice expression b[i*128*r:] at the call site
+def smixGo (m : Mem) (boff r n : Nat) : Option Mem :=
+  if boff > m.b.size then none else    -- the slice expression b[i*128*r:] at the call site
   let R := 32 * r
-  let x : View := ⟨0, xy.size⟩
-  let y ← x.sliceFrom R
-  let vv : View := ⟨0, v.size⟩
-  -- for i := 0; i < R; i++ { x[i] = LittleEndian.Uint32(b[j:]); j += 4 }
-  let xy ← loop1 R (fun i (xy : Words) =>
-      if i < x.len then do let w ← le32At b (boff + 4 * i); pure (xy.setIfInBounds i w) else none) R 0 xy
-  let (v, xy) ← loop2 n (fun i (st : Words × Words) => do
-      let (v, xy) := st
-      let v ← blockCopyGo v (← vv.sliceFrom (i * R)) xy x R
-      let xy ← blockMixGo xy x y r
-      let v ← blockCopyGo v (← vv.sliceFrom ((i + 1) * R)) xy y R
-      let xy ← blockMixGo xy y x r
-      pure (v, xy)) n 0 (v, xy)
-  let (v, xy) ← loop2 n (fun _ (st : Words × Words) => do
-      let (v, xy) := st
-      let j := ((← integerGo xy x r) &&& (UInt64.ofNat (n - 1))).toNat
-      let xy ← blockXORGo xy x v (← vv.sliceFrom (j * R)) R
-      let xy ← blockMixGo xy x y r
-      let j := ((← integerGo xy y r) &&& (UInt64.ofNat (n - 1))).toNat
-      let xy ← blockXORGo xy y v (← vv.sliceFrom (j * R)) R
-      let xy ← blockMixGo xy y x r
-      pure (v, xy)) n 0 (v, xy)
-  -- for _, v := range x[:R] { PutUint32(b[j:], v); j += 4 }
-  if R > x.len then none
-  let b ← loop1 R (fun i (b : Array UInt8) => do
-      let w ← xy[i]?
-      putLe32At b (boff + 4 * i) w) R 0 b
-  pure ⟨b, v, xy⟩
+  let x : View := ⟨0, m.xy.size⟩
+  let vv : View := ⟨0, m.v.size⟩
+  (x.sliceFrom R).bind fun y =>                                   -- y := xy[R:]
+  (loop1 R (loadStep m.b boff x) R 0 m.xy).bind fun xy =>
+  (loop2 n (fillStep x y vv r) n 0 (m.v, xy)).bind fun st =>
+  (loop2 n (mixStep x y vv r n) n 0 st).bind fun st =>
+  if R > x.len then none else                                       -- x[:R]
+  (loop1 R (storeStep st.2 boff) R 0 m.b).bind fun b =>
+  some ⟨b, st.1, st.2⟩
 
 /-! ## PBKDF2 (crypto/pbkdf2 via the x/crypto/pbkdf2 wrapper) -/
 
@@ -451,15 +471,17 @@ def goDiv (a b : Int) : Option Int := if b = 0 then none else some (a.tdiv b)
 def andPred (n : Int) : Nat := n.toNat &&& (n.toNat - 1)
 
 /-- the three argument checks before `keyLen`; `none` = a division by zero panic -/
-def tooLarge (n r p : Int) : Option Bool := do
+def tooLarge (n r p : Int) : Option Bool :=
   -- uint64(r)*uint64(p) >= 1<<30 || r > maxInt/128/p || r > maxInt/256 || N > maxInt/128/r   (r, p > 0 here)
-  if (r.toNat % 2 ^ 64) * (p.toNat % 2 ^ 64) % 2 ^ 64 ≥ 2 ^ 30 then return true
-  let q ← goDiv (maxInt.tdiv 128) p
-  if r > q then return true
-  if r > maxInt.tdiv 256 then return true
-  let q ← goDiv (maxInt.tdiv 128) r
-  if n > q then return true
-  return false
+  if (r.toNat % 2 ^ 64) * (p.toNat % 2 ^ 64) % 2 ^ 64 ≥ 2 ^ 30 then some true else
+  match goDiv (maxInt.tdiv 128) p with
+  | none => none
+  | some q =>
+    if r > q then some true else
+    if r > maxInt.tdiv 256 then some true else
+    match goDiv (maxInt.tdiv 128) r with
+    | none => none
+    | some q' => if n > q' then some true else some false
 
 inductive Verdict where
   | errN | errRP | errLarge | errKeyLen | accept | divPanic
@@ -471,7 +493,9 @@ def validate (n r p keyLen : Int) : Verdict :=
   match tooLarge n r p with
   | none => .divPanic
   | some true => .errLarge
-  | some false => if keyLen ≤ 0 then .errKeyLen else .accept
+  | some false =>
+    -- keyLen <= 0 || uint64(keyLen) > (1<<32-1)*32     (keyLen > 0 on the right: uint64(keyLen) = keyLen)
+    if keyLen ≤ 0 ∨ keyLen.toNat % 2 ^ 64 > (2 ^ 32 - 1) * 32 then .errKeyLen else .accept
 
 /-- `for i := 0; i < p; i++ { smix(b[i*128*r:], r, N, v, xy) }` -/
 def smixAll (r n : Nat) : Nat → Nat → Mem → Option Mem
